@@ -160,6 +160,33 @@ impl<'ast> Visit<'ast> for Finger {
         syn::visit::visit_stmt(self, s);
     }
 }
+/// loop skeleton: loop kinds and their nesting only (what the woven invariants are attached to)
+fn skeleton(shape: &str) -> String {
+    // shape tokens: `W(`, `L(`, `F(`, other tokens `xyz(`, and `)`; keep W/L/F with balanced parens
+    let b: Vec<char> = shape.chars().collect();
+    let mut out = String::new();
+    let mut stack: Vec<bool> = vec![];
+    let mut i = 0;
+    let mut tok_start = 0;
+    while i < b.len() {
+        match b[i] {
+            '(' => {
+                let tok: String = b[tok_start..i].iter().collect();
+                let keep = tok == "W" || tok == "L" || tok == "F";
+                if keep { out.push_str(&tok); out.push('('); }
+                stack.push(keep);
+                tok_start = i + 1;
+            }
+            ')' => {
+                if let Some(true) = stack.pop() { out.push(')'); }
+                tok_start = i + 1;
+            }
+            _ => {}
+        }
+        i += 1;
+    }
+    out
+}
 fn fnv(s: &str) -> String {
     let mut h: u64 = 0xcbf29ce484222325;
     for b in s.bytes() { h ^= b as u64; h = h.wrapping_mul(0x100000001b3); }
@@ -324,7 +351,7 @@ fn render_fn(ctx: &mut Ctx, unit: &Unit, fs: &FnSpec, found: &FoundFn, in_trait_
     ctx.canaries.extend(n.canaries.iter().cloned());
     let meta = json!({
         "name": display, "emit_name": name, "file": fs.file, "src_lines": [found.start, found.end],
-        "rules": n.log, "shape": shape, "fingerprint": fnv(&shape),
+        "rules": n.log, "skeleton": skeleton(&shape), "shape": shape, "fingerprint": fnv(&shape),
         "loops": n.loop_no, "closures": n.closure_no, "anchors_used": n.used_anchors, "props": fs.props,
         "may_panic_asserts": fs.may_panic, "spec_line": fs.line, "included": fs.opts.contains("included"),
     });
@@ -349,13 +376,32 @@ fn impl_header(found: &FoundFn, hdr: &Option<String>, unit: &Unit, fs: &FnSpec) 
     }
 }
 
+/// `@type file Name keep-derive=PartialEq,Eq`: the listed traits must be in the source's `#[derive(..)]` and are re-emitted
+/// (all other attributes are dropped as usual). A trait the spec relies on but the source no longer derives = LOST-ANCHOR.
+fn kept_derives(attrs: &[Attribute], t: &spec::TypeSpec) -> std::result::Result<String, String> {
+    let Some(want) = t.opts.iter().find_map(|o| o.strip_prefix("keep-derive=")) else { return Ok(String::new()) };
+    let mut have: Vec<String> = vec![];
+    for a in attrs {
+        if a.path().is_ident("derive") {
+            let _ = a.parse_nested_meta(|m| { if let Some(s) = m.path.segments.last() { have.push(s.ident.to_string()); } Ok(()) });
+        }
+    }
+    let mut keep = vec![];
+    for w in want.split(',').map(str::trim).filter(|w| !w.is_empty()) {
+        if have.iter().any(|h| h == w) { keep.push(w.to_string()); } else { return Err(format!("LOST-ANCHOR derive({}) on type {} in {} (source derives: {})", w, t.name, t.file, have.join(","))); }
+    }
+    Ok(format!("#[derive({})]\n", keep.join(", ")))
+}
+
 fn emit_type(ctx: &mut Ctx, unit: &Unit, t: &spec::TypeSpec) -> std::result::Result<String, String> {
     let (_, file) = ctx.file(&t.file)?.clone();
     let dummy = FnSpec::default();
     for item in &file.items {
         match item {
             Item::Struct(s) if s.ident == t.name => {
+                let sp = s.span();
                 let mut s = s.clone();
+                let derives = kept_derives(&s.attrs, t)?;
                 s.attrs.clear();
                 s.vis = parse_quote!(pub);
                 let mut n = Norm::new(&dummy, unit, false, "");
@@ -365,21 +411,21 @@ fn emit_type(ctx: &mut Ctx, unit: &Unit, t: &spec::TypeSpec) -> std::result::Res
                     n.visit_type_mut(&mut f.ty);
                     if let Some(id) = &f.ident { if let Some(ft) = t.fieldtype.get(&id.to_string()) { f.ty = parse_str(ft).map_err(|e| format!("SPEC-ERROR fieldtype {}: {}", ft, e))?; } }
                 }
-                let sp = s.span();
-                ctx.types_meta.push(json!({"name": t.name, "file": t.file, "src_lines": [sp.start().line, sp.end().line], "rules": n.log}));
+                ctx.types_meta.push(json!({"name": t.name, "file": t.file, "src_lines": [sp.start().line, sp.end().line], "rules": n.log, "kept_derives": derives.trim()}));
                 let f: File = parse_quote!(#s);
-                return Ok(format!("{}\n{}{}", t.attrs, prettyplease::unparse(&f), t.extra));
+                return Ok(format!("{}\n{}{}{}", t.attrs, derives, prettyplease::unparse(&f), t.extra));
             }
             Item::Enum(e) if e.ident == t.name => {
+                let sp = e.span();
                 let mut e = e.clone();
+                let derives = kept_derives(&e.attrs, t)?;
                 e.attrs.clear();
                 e.vis = parse_quote!(pub);
                 let mut n = Norm::new(&dummy, unit, false, "");
                 for v in e.variants.iter_mut() { v.attrs.clear(); for f in v.fields.iter_mut() { f.attrs.clear(); n.visit_type_mut(&mut f.ty); } }
-                let sp = e.span();
-                ctx.types_meta.push(json!({"name": t.name, "file": t.file, "src_lines": [sp.start().line, sp.end().line], "rules": n.log}));
+                ctx.types_meta.push(json!({"name": t.name, "file": t.file, "src_lines": [sp.start().line, sp.end().line], "rules": n.log, "kept_derives": derives.trim()}));
                 let f: File = parse_quote!(#e);
-                return Ok(format!("{}\n{}{}", t.attrs, prettyplease::unparse(&f), t.extra));
+                return Ok(format!("{}\n{}{}{}", t.attrs, derives, prettyplease::unparse(&f), t.extra));
             }
             _ => {}
         }
@@ -547,6 +593,69 @@ fn main() {
                 let extra_lines = extra.lines().count();
                 for (mut m, s, e) in metas { m["gen_lines"] = json!([base + extra_lines + s, base + extra_lines + e]); ctx.fns_meta.push(m); }
             }
+            SItem::CallOrder { file, path, name, callees, f: fs } => {
+                // R-ORDER: positions (1-based ordinal of the enclosing top-level statement) of the named calls in the fn body
+                match locate(&mut ctx, file, path, None) {
+                    Ok(found) => {
+                        struct Calls { cond: usize, out: Vec<(String, bool)> }
+                        impl<'ast> Visit<'ast> for Calls {
+                            fn visit_item(&mut self, _i: &'ast Item) {}
+                            fn visit_expr(&mut self, e: &'ast Expr) {
+                                match e {
+                                    Expr::MethodCall(m) => self.out.push((m.method.to_string(), self.cond == 0)),
+                                    Expr::Call(c) => { if let Expr::Path(p) = &*c.func { if let Some(s) = p.path.segments.last() { self.out.push((s.ident.to_string(), self.cond == 0)); } } }
+                                    _ => {}
+                                }
+                                let nested = matches!(e, Expr::If(_) | Expr::Match(_) | Expr::While(_) | Expr::ForLoop(_) | Expr::Loop(_) | Expr::Closure(_) | Expr::Async(_));
+                                if nested { self.cond += 1; }
+                                syn::visit::visit_expr(self, e);
+                                if nested { self.cond -= 1; }
+                            }
+                        }
+                        let mut first = vec![0usize; callees.len()];
+                        let mut last = vec![0usize; callees.len()];
+                        let mut uncond = vec![false; callees.len()];
+                        let mut listing: Vec<String> = vec![];
+                        for (k, st) in found.block.stmts.iter().enumerate() {
+                            let mut c = Calls { cond: 0, out: vec![] };
+                            c.visit_stmt(st);
+                            for (nm, un) in &c.out {
+                                for (j, want) in callees.iter().enumerate() {
+                                    if want == nm {
+                                        if first[j] == 0 { first[j] = k + 1; uncond[j] = *un; }
+                                        last[j] = k + 1;
+                                        listing.push(format!("stmt {}: {}{}", k + 1, nm, if *un { "" } else { " (conditional)" }));
+                                    }
+                                }
+                            }
+                        }
+                        for (j, want) in callees.iter().enumerate() { if first[j] == 0 { ctx.problems.push(format!("LOST-ANCHOR no call of `{}` in {} ({})", want, path, file)); } }
+                        let tab = |v: &Vec<String>, dflt: &str| -> String { let mut t = String::new(); for (j, x) in v.iter().enumerate() { t.push_str(&format!("if k == {} {{ {} }} else ", j, x)); } t.push_str(&format!("{{ {} }}", dflt)); t };
+                        let mut fgr = Finger(String::new());
+                        fgr.visit_block(&found.block);
+                        let shape = fgr.0;
+                        let start = o.lines().count() + 1;
+                        o.push_str(&format!("// ---- call order in {} from {}:{}-{} — {}\n", path, file, found.start, found.end, listing.join("; ")));
+                        o.push_str(&format!("pub open spec fn {}_first(k: int) -> int {{ {} }}\n", name, tab(&first.iter().map(|x| x.to_string()).collect(), "0")));
+                        o.push_str(&format!("pub open spec fn {}_last(k: int) -> int {{ {} }}\n", name, tab(&last.iter().map(|x| x.to_string()).collect(), "0")));
+                        o.push_str(&format!("pub open spec fn {}_unconditional(k: int) -> bool {{ {} }}\n", name, tab(&uncond.iter().map(|x| x.to_string()).collect(), "false")));
+                        let mut body = String::new();
+                        if ctx.canary && !fs.no_canary.contains("exit") {
+                            let tag = format!("{}#callorder:exit", path);
+                            ctx.canaries.push(tag.clone());
+                            body = format!("\n    assert(false); /*VX-CANARY {}*/\n", tag);
+                        }
+                        o.push_str(&format!("pub proof fn {}()\n    ensures\n{}\n{{{}}}\n\n", name, indent(&fs.ensures, 8), body));
+                        ctx.fns_meta.push(json!({
+                            "name": format!("{}#callorder", path), "emit_name": name, "file": file, "src_lines": [found.start, found.end],
+                            "rules": {"R-ORDER": 1}, "shape": shape, "fingerprint": fnv(&shape), "loops": 0, "closures": 0, "anchors_used": [],
+                            "props": fs.props, "may_panic_asserts": [], "spec_line": fs.line, "included": fs.opts.contains("included"),
+                            "call_positions": listing, "gen_lines": [start, o.lines().count()],
+                        }));
+                    }
+                    Err(e) => ctx.problems.push(e),
+                }
+            }
             SItem::Lift(l) => {
                 // R-EXPR: lift the initialiser of `let BINDER = EXPR;` in the named fn
                 match locate(&mut ctx, &l.file, &l.path, None) {
@@ -564,17 +673,54 @@ fn main() {
                         let mut fl = FindLet { name: &l.binder, hit: None };
                         fl.visit_block(&found.block);
                         match fl.hit {
-                            Some((ex, s, e)) => {
-                                let sigtxt = format!("fn {} {{}}", l.sig.trim());
+                            Some((mut ex, s, e)) => {
+                                // @subst PLACE => EXPR: a free place expression of the enclosing fn (e.g. `self.a.b`) becomes a parameter
+                                struct Subst<'a> { pairs: &'a [(String, String)], hits: Vec<usize>, bad: Vec<String> }
+                                impl<'a> VisitMut for Subst<'a> {
+                                    fn visit_expr_mut(&mut self, e: &mut Expr) {
+                                        if matches!(e, Expr::Field(_) | Expr::Path(_)) {
+                                            let k = squash(&ts(e));
+                                            for (i, (from, to)) in self.pairs.iter().enumerate() {
+                                                if k == squash(from) {
+                                                    match parse_str::<Expr>(to) { Ok(ne) => { *e = ne; self.hits[i] += 1; } Err(er) => self.bad.push(format!("{}: {}", to, er)) }
+                                                    return;
+                                                }
+                                            }
+                                        }
+                                        syn::visit_mut::visit_expr_mut(self, e);
+                                    }
+                                }
+                                let mut sb = Subst { pairs: &l.f.subst, hits: vec![0; l.f.subst.len()], bad: vec![] };
+                                sb.visit_expr_mut(&mut ex);
+                                // zero occurrences is not an error: the lifted text then simply ignores the parameter and the contract decides
+                                for b in &sb.bad { ctx.problems.push(format!("SPEC-ERROR @subst target {}", b)); }
+                                let n_subst: usize = sb.hits.iter().sum();
+                                // the documented form is Verus-style `name(args) -> (r: T)`; syn needs `-> T`, the name becomes @ret
+                                let mut sig_rust = l.sig.trim().to_string();
+                                let mut ret_name: Option<String> = None;
+                                if let Some(p) = sig_rust.rfind("->") {
+                                    let tail = sig_rust[p + 2..].trim().to_string();
+                                    if tail.starts_with('(') && tail.ends_with(')') {
+                                        if let Some((nm, ty)) = tail[1..tail.len() - 1].split_once(':') {
+                                            if nm.trim().chars().all(|c| c.is_alphanumeric() || c == '_') && !ty.trim_start().starts_with(':') {
+                                                ret_name = Some(nm.trim().to_string());
+                                                sig_rust = format!("{} -> {}", &sig_rust[..p].trim_end(), ty.trim());
+                                            }
+                                        }
+                                    }
+                                }
+                                let sigtxt = format!("fn {} {{}}", sig_rust);
                                 match parse_str::<ItemFn>(&sigtxt) {
                                     Ok(f) => {
                                         let blk: Block = parse_quote!({ #ex });
                                         let ff = FoundFn { attrs: vec![], sig: f.sig.clone(), block: blk, impl_generics: None, self_ty: None, trait_: None, start: s, end: e };
                                         let mut fs = l.f.clone();
                                         fs.emit_name = Some(f.sig.ident.to_string());
+                                        if let Some(rn) = &ret_name { if fs.ret_name == "r" { fs.ret_name = rn.clone(); } }
                                         let disp = format!("{}#let {}", l.path, l.binder);
                                         let mut r = render_fn(&mut ctx, &unit, &fs, &ff, false, &disp);
                                         r.meta["rules"]["R-EXPR"] = json!(1);
+                                        if n_subst > 0 { r.meta["rules"]["R-EXPR(subst)"] = json!(n_subst); }
                                         let start = o.lines().count() + 1;
                                         o.push_str(&format!("// ---- lifted `let {}` of {} from {}:{}-{}\n{}\n", l.binder, l.path, l.file, s, e, r.text));
                                         let mut m = r.meta; m["gen_lines"] = json!([start, o.lines().count()]);
